@@ -163,8 +163,12 @@ func dirWriterRules(c *Check, co *Corpus, fi *FuncInfo, funcs map[*ssaFuncKey]bo
 			case *IfN:
 				// `if string(was) == code { …; continue }` where was is the previous file's content read from the same
 				// path and code is exactly what WriteFile writes below
-				if m.Cond.Kind == "cmp" && m.Cond.Neg && m.Cond.Op == "!=" {
-					for _, t := range m.Then {
+				if m.Cond.Kind == "cmp" && m.Cond.Op == "!=" {
+					eq := m.Then // the branch taken when the two are equal
+					if !m.Cond.Neg {
+						eq = m.Else
+					}
+					for _, t := range eq {
 						if b, ok := t.(*BranchN); ok && b.Tok == token.CONTINUE {
 							unconv := func(x string) string {
 								return strings.TrimSuffix(strings.TrimPrefix(x, "conv("), ")")
